@@ -1,4 +1,5 @@
-import StepupModel.K.Scheduler
+import StepupModel.Lemmas.KProp
+import StepupModel.Lemmas.Norm
 /-!
 Frame lemmas for the recycle branch of `Trellis.create`: which columns the partial recycle of a
 step leaves alone.  The view `envView` keeps the key and the `env_var` rows of every node; every
@@ -224,5 +225,505 @@ theorem envFrame_find? (s s' : KState) (h : EnvFrame s s') (k : Key) :
       · simp [hq, he]
       · simp only [hq, decide_false]
         exact ih as hrest
+
+/-! ## `env_var` rows of one node through `define_step` -/
+
+/-- The `env_var` rows of node `q` (`none`: no such node). -/
+def KState.envsOf (s : KState) (q : Key) : Option (List (String × Option String × Bool)) :=
+  (s.find? q).map (·.envs)
+
+theorem envsOf_of_frame (s s' : KState) (h : EnvFrame s s') (q : Key) : s'.envsOf q = s.envsOf q :=
+  envFrame_find? s s' h q
+
+theorem fileRowWrite_envs (n n' : Node) (st : FileState) (nh : Option (Option Nat))
+    (h : fileRowWrite n st nh = .ok n') : n'.envs = n.envs ∧ n'.key = n.key := by
+  unfold fileRowWrite at h
+  dsimp only at h
+  split at h
+  · cases h
+  · split at h
+    · cases h
+    · simp only [pure, Except.pure, Except.ok.injEq] at h
+      subst h
+      exact ⟨rfl, rfl⟩
+
+theorem stepRowWrite_envs (n n' : Node) (st : StepState) (d : Option Bool)
+    (h : stepRowWrite n st d = .ok n') : n'.envs = n.envs ∧ n'.key = n.key := by
+  unfold stepRowWrite at h
+  dsimp only at h
+  split at h
+  · cases h
+  · simp only [pure, Except.pure, Except.ok.injEq] at h
+    subst h
+    exact ⟨rfl, rfl⟩
+
+theorem envsOf_modify_const (s : KState) (k q : Key) (n n' : Node) (hf : s.find? k = some n)
+    (he : n'.envs = n.envs) (hk : n'.key = n.key) : (s.modify k fun _ => n').envsOf q = s.envsOf q := by
+  have hkk : n.key = k := find?_key s k n hf
+  have hkey : ∀ m : Node, m.key = k → ((fun _ => n') m).key = k := fun _ _ => by simp [hk, hkk]
+  unfold KState.envsOf
+  by_cases hq : q = k
+  · subst hq
+    rw [find?_modify_self s q _ hkey, hf]
+    simp [he]
+  · rw [find?_modify_ne s k q _ hkey hq]
+
+theorem envsOf_flagReadySinks (s : KState) (k q : Key) : (s.flagReadySinks k).envsOf q = s.envsOf q :=
+  envsOf_of_frame _ _ (envFrame_flagReadySinks s k) q
+
+theorem writeFile_envsOf (s s' : KState) (k : Key) (st : FileState) (nh : Option (Option Nat))
+    (h : s.writeFile k st nh = .ok s') (q : Key) : s'.envsOf q = s.envsOf q := by
+  unfold KState.writeFile at h
+  cases hf : s.find? k with
+  | none => simp only [hf, pure, Except.pure, Except.ok.injEq] at h; subst h; rfl
+  | some n =>
+    simp only [hf, bind, Except.bind] at h
+    cases hw : fileRowWrite n st nh with
+    | error e => simp [hw] at h
+    | ok n' =>
+      simp only [hw, pure, Except.pure, Except.ok.injEq] at h
+      obtain ⟨he, hk⟩ := fileRowWrite_envs n n' st nh hw
+      split at h
+      · subst h; rw [envsOf_flagReadySinks]; exact envsOf_modify_const s k q n n' hf he hk
+      · subst h; exact envsOf_modify_const s k q n n' hf he hk
+
+theorem writeStepState_envsOf (s s' : KState) (k : Key) (st : StepState) (d : Option Bool)
+    (h : s.writeStepState k st d = .ok s') (q : Key) : s'.envsOf q = s.envsOf q := by
+  unfold KState.writeStepState at h
+  cases hf : s.find? k with
+  | none => simp only [hf, pure, Except.pure, Except.ok.injEq] at h; subst h; rfl
+  | some n =>
+    simp only [hf, bind, Except.bind] at h
+    cases hw : stepRowWrite n st d with
+    | error e => simp [hw] at h
+    | ok n' =>
+      simp only [hw, pure, Except.pure, Except.ok.injEq] at h
+      obtain ⟨he, hk⟩ := stepRowWrite_envs n n' st d hw
+      subst h
+      exact envsOf_modify_const s k q n n' hf he hk
+
+/-- The propagation does not touch `env_var` rows. -/
+theorem propInv_envsOf (q : Key) (v : Option (List (String × Option String × Bool))) :
+    PropInv (fun s => s.envsOf q = v) where
+  file := fun s s' f hs _ _ h => by
+    rw [setFileState_eq] at h
+    rw [writeFile_envsOf s s' f _ _ h q]; exact hs
+  step := fun s s' t _ hs _ _ _ h => by
+    rw [setStepState_eq] at h
+    rw [writeStepState_envsOf s s' t _ _ h q]; exact hs
+
+theorem markFileOutdated_envsOf (s s' : KState) (f : Key) (h : s.markFileOutdated f = .ok s') (q : Key) :
+    s'.envsOf q = s.envsOf q := by
+  unfold KState.markFileOutdated at h
+  cases hf : s.find? f with
+  | none => simp only [hf, pure, Except.pure, Except.ok.injEq] at h; subst h; rfl
+  | some n =>
+    simp only [hf] at h
+    split at h
+    · simp only [bind, Except.bind] at h
+      cases hw : s.setFileState f .outdated with
+      | error e => simp [hw] at h
+      | ok s1 =>
+        simp only [hw] at h
+        rw [setFileState_eq] at hw
+        have h1 := writeFile_envsOf s s1 f _ _ hw q
+        have := markConsumersPending_inv (propInv_envsOf q (s1.envsOf q)) s1 s' f rfl h
+        rw [this, h1]
+    · split at h
+      · simp only [pure, Except.pure, Except.ok.injEq] at h; subst h; rfl
+      · simp [throw, throwThe, MonadExceptOf.throw] at h
+
+theorem initFileRow_envsOf (s s' : KState) (k : Key) (st : FileState) (existed : Bool)
+    (h : s.initFileRow k st existed = .ok s') (q : Key) : s'.envsOf q = s.envsOf q := by
+  unfold KState.initFileRow at h
+  simp only [bind, Except.bind] at h
+  cases hw : s.writeInitialFile k (s.keptState k st existed) existed with
+  | error e => simp [hw] at h
+  | ok s1 =>
+    simp only [hw] at h
+    have h1 : s1.envsOf q = s.envsOf q := by
+      unfold KState.writeInitialFile at hw
+      split at hw
+      · rw [setFileState_eq] at hw; exact writeFile_envsOf s s1 k _ _ hw q
+      · split at hw
+        · simp [throw, throwThe, MonadExceptOf.throw] at hw
+        · simp only [pure, Except.pure, Except.ok.injEq] at hw
+          subst hw
+          rw [envsOf_flagReadySinks]
+          refine envsOf_of_frame _ _ (envFrame_modify s k _ ?_) q
+          intro n; rfl
+    split at h
+    · rw [markFileOutdated_envsOf s1 s' k h q, h1]
+    · simp only [pure, Except.pure, Except.ok.injEq] at h; subst h; exact h1
+
+theorem appendNode_envsOf (s : KState) (k q : Key) (c : Option Key) (hq : q ≠ k) :
+    (s.appendNode k c).envsOf q = s.envsOf q := by
+  unfold KState.appendNode KState.envsOf KState.find?
+  simp only [List.find?_append, List.find?_cons, List.find?_nil]
+  have : decide (k = q) = false := by simp; exact fun h => hq h.symm
+  cases s.nodes.find? (·.key = q) <;> simp [this]
+
+/-- `Trellis.create` of a *file* node leaves the `env_var` rows of every node of another key alone
+(file nodes have none). -/
+theorem create_file_envsOf (s s' : KState) (k : Key) (c : Option Key) (st : FileState)
+    (h : s.create k c (.file st) = .ok s') (q : Key) (hq : q ≠ k) : s'.envsOf q = s.envsOf q := by
+  unfold KState.create at h
+  cases hf : s.find? k with
+  | some n =>
+    simp only [hf] at h
+    split at h
+    · simp [throw, throwThe, MonadExceptOf.throw] at h
+    · split at h
+      · simp [throw, throwThe, MonadExceptOf.throw] at h
+      · unfold KState.recycleCore at h
+        simp only [bind, Except.bind] at h
+        cases h1 : s.setCreator k c (s.creatorDetached c) with
+        | error e => simp [h1] at h
+        | ok s1 =>
+          simp only [h1] at h
+          cases h2 : s1.lostProduct n.creator with
+          | error e => simp [h2] at h
+          | ok s2 =>
+            simp only [h2] at h
+            cases h3 : (s2.deleteDeps fun dp => decide (dp.snk = k)).detachProducts k with
+            | error e => simp [h3] at h
+            | ok s3 =>
+              simp only [h3, KState.initRow] at h
+              have hfr : EnvFrame s s3 := (envFrame_setCreator _ _ _ _ _ h1).trans <|
+                (envFrame_lostProduct _ _ _ h2).trans <| (envFrame_deleteDeps s2 _).trans (envFrame_detachProducts _ _ _ h3)
+              rw [initFileRow_envsOf s3 s' k st true h q, envsOf_of_frame s s3 hfr q]
+  | none =>
+    simp only [hf] at h
+    split at h
+    · simp only [KState.initRow] at h
+      rw [initFileRow_envsOf _ s' k st false h q, appendNode_envsOf s k q c hq]
+    · simp [throw, throwThe, MonadExceptOf.throw] at h
+
+theorem insertDep_envsOf (s s' : KState) (a b : Key) (h : s.insertDep a b = .ok s') (q : Key) :
+    s'.envsOf q = s.envsOf q := by
+  unfold KState.insertDep at h
+  simp only [bind, Except.bind] at h
+  split at h
+  · simp [throw, throwThe, MonadExceptOf.throw] at h
+  · split at h
+    · simp [throw, throwThe, MonadExceptOf.throw] at h
+    · simp only [pure, Except.pure, Except.ok.injEq] at h
+      subst h
+      exact envsOf_of_frame _ _ (envFrame_flagDepEndpoints _ a b) q
+
+theorem fileKey_ne_step (p : String) (q : Key) (hq : q.kind = .step) : q ≠ fileKey p := by
+  intro h; rw [h] at hq; cases hq
+
+theorem resolveSupply_envsOf (s : KState) (cfg : KConfig) (step : Key) (path : String) (rn : Bool)
+    (r : KState × Supply) (h : s.resolveSupply cfg step path rn = .ok r) (q : Key) (hq : q.kind = .step) :
+    r.1.envsOf q = s.envsOf q := by
+  have hne := fileKey_ne_step path q hq
+  unfold KState.resolveSupply at h
+  simp only [bind, Except.bind] at h
+  cases hn : s.resolveNode cfg path with
+  | error e => simp [hn] at h
+  | ok t =>
+    obtain ⟨s1, state, detached⟩ := t
+    simp only [hn] at h
+    have h1 : s1.envsOf q = s.envsOf q := by
+      unfold KState.resolveNode at hn
+      simp only [bind, Except.bind] at hn
+      cases ht : s.resolveTree path (s.find? (fileKey path)) with
+      | error e => simp [ht] at hn
+      | ok tree =>
+        simp only [ht] at hn
+        unfold KState.resolveWith at hn
+        split at hn
+        · rename_i t
+          unfold KState.adoptByTree at hn
+          simp only [bind, Except.bind] at hn
+          cases hg : adoptGuard cfg path with
+          | error e => simp [hg] at hn
+          | ok u =>
+            simp only [hg] at hn
+            cases hc : s.create (fileKey path) (some t) (.file .unconfirmed) with
+            | error e => simp [hc] at hn
+            | ok s2 =>
+              simp only [hc, pure, Except.pure, Except.ok.injEq, Prod.mk.injEq] at hn
+              rw [← hn.1]
+              exact create_file_envsOf s s2 _ _ _ hc q hne
+        · simp only [bind, Except.bind] at hn
+          split at hn
+          · simp [throw, throwThe, MonadExceptOf.throw] at hn
+          · unfold KState.placeholder at hn
+            simp only [bind, Except.bind] at hn
+            cases hc : s.create (fileKey path) none (.file .undeclared) with
+            | error e => simp [hc] at hn
+            | ok s2 =>
+              simp only [hc, pure, Except.pure, Except.ok.injEq, Prod.mk.injEq] at hn
+              rw [← hn.1]
+              exact create_file_envsOf s s2 _ _ _ hc q hne
+        · split at hn
+          · unfold KState.placeholder at hn
+            simp only [bind, Except.bind] at hn
+            cases hc : s.create (fileKey path) none (.file .undeclared) with
+            | error e => simp [hc] at hn
+            | ok s2 =>
+              simp only [hc, pure, Except.pure, Except.ok.injEq, Prod.mk.injEq] at hn
+              rw [← hn.1]
+              exact create_file_envsOf s s2 _ _ _ hc q hne
+          · simp only [bind, Except.bind] at hn
+            split at hn
+            · cases hn
+            · simp only [pure, Except.pure, Except.ok.injEq, Prod.mk.injEq] at hn
+              rw [← hn.1]
+    split at h
+    · simp [graphErr, throw, throwThe, MonadExceptOf.throw] at h
+    · simp only [pure, Except.pure, Except.ok.injEq] at h
+      subst h
+      exact h1
+
+theorem resolveAll_envsOf (cfg : KConfig) (step : Key) (rn : Bool) (paths : List String) (s : KState)
+    (r : KState × List Supply) (h : s.resolveAll cfg step paths rn = .ok r) (q : Key) (hq : q.kind = .step) :
+    r.1.envsOf q = s.envsOf q := by
+  unfold KState.resolveAll at h
+  have := foldlM_keeps (fun (acc : KState × List Supply) => acc.1.envsOf q = s.envsOf q) _ paths
+    (fun b a b' _ hb hr => by
+      simp only [bind, Except.bind] at hr
+      cases hx : b.1.resolveSupply cfg step a rn with
+      | error e => simp [hx] at hr
+      | ok x =>
+        simp only [hx, pure, Except.pure, Except.ok.injEq] at hr
+        subst hr
+        exact (resolveSupply_envsOf b.1 cfg step a rn x hx q hq).trans hb) (s, []) r rfl h
+  exact this
+
+theorem supplyFiles_envsOf (s : KState) (cfg : KConfig) (step : Key) (paths : List String) (rn : Bool)
+    (r : KState × List Supply) (h : s.supplyFiles cfg step paths rn = .ok r) (q : Key) (hq : q.kind = .step) :
+    r.1.envsOf q = s.envsOf q := by
+  unfold KState.supplyFiles at h
+  simp only [bind, Except.bind] at h
+  cases ha : s.resolveAll cfg step paths rn with
+  | error e => simp [ha] at h
+  | ok t =>
+    obtain ⟨s1, infos⟩ := t
+    simp only [ha] at h
+    have h1 := resolveAll_envsOf cfg step rn paths s (s1, infos) ha q hq
+    split at h
+    · simp [throw, throwThe, MonadExceptOf.throw] at h
+    · cases hi : s1.insertNewEdges step infos with
+      | error e => simp [hi] at h
+      | ok s2 =>
+        simp only [hi, pure, Except.pure, Except.ok.injEq] at h
+        subst h
+        unfold KState.insertNewEdges at hi
+        have := foldlM_keeps (fun b => b.envsOf q = s1.envsOf q) _ _
+          (fun b a b' _ hb hr => (insertDep_envsOf b b' _ _ hr q).trans hb) s1 s2 rfl hi
+        exact this.trans h1
+
+theorem declareFile_envsOf (s s' : KState) (cfg : KConfig) (creator : Key) (path : String) (st : FileState)
+    (h : s.declareFile cfg creator path st = .ok s') (q : Key) (hq : q.kind = .step) : s'.envsOf q = s.envsOf q := by
+  unfold KState.declareFile at h
+  simp only [bind, Except.bind] at h
+  split at h
+  · cases h
+  · cases hc : s.create (fileKey path) (some creator) (.file st) with
+    | error e => simp [hc] at h
+    | ok s1 =>
+      simp only [hc] at h
+      unfold KState.volatileSinkCheck at h
+      split at h
+      · simp [graphErr, throw, throwThe, MonadExceptOf.throw] at h
+      · simp only [pure, Except.pure, Except.ok.injEq] at h
+        subst h
+        exact create_file_envsOf s s1 _ _ _ hc q (fileKey_ne_step path q hq)
+
+theorem declareProducts_envsOf (cfg : KConfig) (step : Key) (st : FileState) (paths : List String) (s s' : KState)
+    (h : s.declareProducts cfg step paths st = .ok s') (q : Key) (hq : q.kind = .step) : s'.envsOf q = s.envsOf q := by
+  unfold KState.declareProducts at h
+  exact foldlM_keeps (fun b => b.envsOf q = s.envsOf q) _ paths
+    (fun b a b' _ hb hr => by
+      unfold KState.declareProduct at hr
+      simp only [bind, Except.bind] at hr
+      cases hd : b.declareFile cfg step a st with
+      | error e => simp [hd] at hr
+      | ok b1 =>
+        simp only [hd] at hr
+        unfold KState.addSourceChecked at hr
+        simp only [bind, Except.bind] at hr
+        split at hr
+        · simp [throw, throwThe, MonadExceptOf.throw] at hr
+        · exact (insertDep_envsOf b1 b' _ _ hr q).trans ((declareFile_envsOf b b1 cfg step a st hd q hq).trans hb))
+    s s' rfl h
+
+/-- A step node right after `Trellis.create` (fresh or partially recycled) has no `env_var` row. -/
+theorem create_step_envsOf (s s' : KState) (k : Key) (c : Option Key) (i : StepInit)
+    (h : s.create k c (.step i) = .ok s') : s'.envsOf k = some [] := by
+  unfold KState.create at h
+  cases hf : s.find? k with
+  | some n =>
+    simp only [hf] at h
+    split at h
+    · simp [throw, throwThe, MonadExceptOf.throw] at h
+    · split at h
+      · simp [throw, throwThe, MonadExceptOf.throw] at h
+      · obtain ⟨s3, hframe, hs'⟩ := recycleCore_step_split s s' k n c i h
+        have h3 := envFrame_find? s s3 hframe k
+        rw [hf] at h3
+        subst hs'
+        unfold KState.envsOf KState.initStepRow
+        rw [find?_modify_self]
+        · cases hf3 : s3.find? k with
+          | none => simp [hf3] at h3
+          | some m => rfl
+        · intro m hm; exact hm
+  | none =>
+    simp only [hf] at h
+    split at h
+    · simp only [KState.initRow, pure, Except.pure, Except.ok.injEq] at h
+      subst h
+      unfold KState.envsOf KState.initStepRow
+      rw [find?_modify_self]
+      · have : (s.appendNode k c).find? k = some { key := k, creator := c, detached := s.creatorDetached c } := by
+          unfold KState.appendNode KState.find?
+          unfold KState.find? at hf
+          simp only [List.find?_append, hf, List.find?_cons, decide_true, Option.none_or]
+        rw [this]; rfl
+      · intro m hm; exact hm
+    · simp [throw, throwThe, MonadExceptOf.throw] at h
+
+/-- The creation branch of `define_step`: the `env_var` rows of the new step are those that
+`add_env_deps` writes on a step without rows. -/
+theorem createStep_env_rows (s : KState) (cfg : KConfig) (sk creator : Key) (d : StepDecl) (r : KState × List String)
+    (hk : sk.kind = .step) (h : s.createStep cfg sk creator d = .ok r) :
+    ∃ n3 : Node, n3.envs = [] ∧ r.1.envsOf sk = some (addEnvDeps cfg n3 d.env).envs := by
+  unfold KState.createStep at h
+  simp only [bind, Except.bind] at h
+  cases h1 : s.create sk (some creator) (.step { need := d.need, shell := d.shell, safe := d.safe }) with
+  | error e => simp [h1] at h
+  | ok s1 =>
+    simp only [h1] at h
+    have e1 := create_step_envsOf s s1 sk _ _ h1
+    have e2 : (s1.setStepExtras sk d).envsOf sk = some [] := by
+      unfold KState.setStepExtras
+      rw [envsOf_of_frame _ _ (envFrame_modify s1 sk _ (by intro n; rfl)) sk]; exact e1
+    cases h3 : (s1.setStepExtras sk d).supplyFiles cfg sk d.inp true with
+    | error e => simp [h3] at h
+    | ok t =>
+      obtain ⟨s3, infos⟩ := t
+      simp only [h3] at h
+      have e3 : s3.envsOf sk = some [] := (supplyFiles_envsOf _ cfg sk d.inp true (s3, infos) h3 sk hk).trans e2
+      cases hf3 : s3.find? sk with
+      | none => simp [KState.envsOf, hf3] at e3
+      | some n3 =>
+        have hn3 : n3.envs = [] := by simpa [KState.envsOf, hf3] using e3
+        have e4 : (s3.modify sk fun n => addEnvDeps cfg n d.env).envsOf sk = some (addEnvDeps cfg n3 d.env).envs := by
+          unfold KState.envsOf
+          rw [find?_modify_self, hf3]
+          · rfl
+          · intro m hm
+            have : ∀ (l : List String) (m : Node), (addEnvDeps cfg m l).key = m.key := by
+              intro l
+              unfold addEnvDeps
+              induction l with
+              | nil => intro m; rfl
+              | cons a as ih => intro m; simp only [List.foldl_cons]; rw [ih]
+            rw [this]; exact hm
+        cases h5 : (s3.modify sk fun n => addEnvDeps cfg n d.env).declareProducts cfg sk d.out .planned with
+        | error e => simp [h5] at h
+        | ok s5 =>
+          simp only [h5] at h
+          cases h6 : s5.declareProducts cfg sk d.vol .volatile with
+          | error e => simp [h6] at h
+          | ok s6 =>
+            simp only [h6, pure, Except.pure, Except.ok.injEq] at h
+            subst h
+            refine ⟨n3, hn3, ?_⟩
+            rw [declareProducts_envsOf cfg sk .volatile d.vol s5 s6 h6 sk hk,
+              declareProducts_envsOf cfg sk .planned d.out _ s5 h5 sk hk, e4]
+
+theorem defineGuard_key (s : KState) (cfg : KConfig) (creator : Key) (d : StepDecl) (k : Key)
+    (h : s.defineGuard cfg creator d = .ok k) : ∃ label, stepLabel d.cmd d.workdir = some label ∧ k = stepKey label := by
+  unfold KState.defineGuard at h
+  simp only [bind, Except.bind] at h
+  repeat' (split at h <;> try (first | (simp [graphErr, throw, throwThe, MonadExceptOf.throw] at h; done) | cases h))
+  rename_i l hl _ v hv _ _ _
+  simp only [pure, Except.pure, Except.ok.injEq] at hv
+  subst hv
+  exact ⟨l, hl, rfl⟩
+
+theorem reattach_envsOf (s s' : KState) (k c : Key) (h : s.reattach k c = .ok s') (q : Key) :
+    s'.envsOf q = s.envsOf q := by
+  unfold KState.reattach at h
+  cases hf : s.find? k with
+  | none => simp [hf, throw, throwThe, MonadExceptOf.throw] at h
+  | some n =>
+    simp only [hf] at h
+    split at h
+    · simp [throw, throwThe, MonadExceptOf.throw] at h
+    · split at h
+      · simp [throw, throwThe, MonadExceptOf.throw] at h
+      · unfold KState.reattachCore at h
+        simp only [bind, Except.bind] at h
+        cases h1 : s.setCreator k (some c) (s.isDetached c) with
+        | error e => simp [h1] at h
+        | ok s1 =>
+          simp only [h1] at h
+          cases h2 : s1.lostProduct n.creator with
+          | error e => simp [h2] at h
+          | ok s2 =>
+            simp only [h2] at h
+            have hfr : EnvFrame s (s2.setDetachedRec k (s.isDetached c)) :=
+              (envFrame_setCreator _ _ _ _ _ h1).trans <| (envFrame_lostProduct _ _ _ h2).trans
+                (envFrame_setDetachedRec s2 k _)
+            unfold KState.flagIfStep at h
+            split at h
+            · exact envsOf_of_frame _ _ (hfr.trans (envFrame_flagChecksWithProducts _ _ _ h)) q
+            · simp only [pure, Except.pure, Except.ok.injEq] at h
+              subst h
+              exact envsOf_of_frame _ _ hfr q
+
+/-- The full recycle of a step keeps its `env_var` rows. -/
+theorem recycleStep_envsOf (s s' : KState) (sk creator : Key) (d : StepDecl) (n : Node)
+    (h : s.recycleStep sk creator d n = .ok s') (q : Key) : s'.envsOf q = s.envsOf q := by
+  unfold KState.recycleStep at h
+  simp only [bind, Except.bind] at h
+  cases h1 : s.reattach sk creator with
+  | error e => simp [h1] at h
+  | ok s1 =>
+    simp only [h1] at h
+    cases h3 : s1.afterRecycle sk d n with
+    | error e => simp [h3] at h
+    | ok s3 =>
+      simp only [h3, pure, Except.pure, Except.ok.injEq] at h
+      subst h
+      have e1 := reattach_envsOf s s1 sk creator h1 q
+      have e3 : s3.envsOf q = s1.envsOf q := by
+        unfold KState.afterRecycle at h3
+        have hm : (s1.modify sk fun n => { n with need := d.need, shell := d.shell, holding := 0 }).envsOf q = s1.envsOf q :=
+          envsOf_of_frame _ _ (envFrame_modify s1 sk _ (by intro n; rfl)) q
+        split at h3
+        · rw [markStepPending_def] at h3
+          rw [markStepPending_inv (propInv_envsOf q _) _ _ s3 sk rfl h3, hm]
+        · simp only [pure, Except.pure, Except.ok.injEq] at h3
+          subst h3; exact hm
+      unfold KState.setStepExtras
+      rw [envsOf_of_frame _ _ (envFrame_modify s3 sk _ (by intro n; rfl)) q, e3, e1]
+
+/-- `define_step` after the normalisation of its four lists. -/
+def KState.defineBody (s : KState) (cfg : KConfig) (creator : Key) (d : StepDecl) : M (KState × List String) := do
+  let sk ← s.defineGuard cfg creator d
+  match s.find? sk with
+  | some n =>
+    if n.detached ∧ s.canRecycle sk d then do
+      let s1 ← s.recycleStep sk creator d n
+      pure (s1, s1.unconfirmedTreeInputs sk)
+    else do
+      s.newStepGuard sk d
+      s.createStep cfg sk creator d
+  | none => do
+    s.newStepGuard sk d
+    s.createStep cfg sk creator d
+
+def StepDecl.normalised (d : StepDecl) : StepDecl :=
+  { d with inp := normPaths d.inp, env := normPaths d.env, out := normPaths d.out, vol := normPaths d.vol }
+
+theorem defineStep_eq_body (s : KState) (cfg : KConfig) (creator : Key) (d : StepDecl) :
+    s.defineStep cfg creator d = s.defineBody cfg creator d.normalised := rfl
 
 end StepupModel.K
